@@ -288,8 +288,10 @@ impl quote::ToTokens for ArgumentsGenerator<'_> {
                 syn::GenericParam::Lifetime(lifetime_def) => {
                     punctuator.push(&lifetime_def.lifetime);
                 }
+                // (in braces: a bare `N` would be read as a type of that name, should the scope have one)
                 syn::GenericParam::Const(const_param) => {
-                    punctuator.push(&const_param.ident);
+                    let ident = &const_param.ident;
+                    punctuator.push(quote::quote! { { #ident } });
                 }
             }
         }
